@@ -103,3 +103,46 @@ Definition model_ok_on (x : list float) (lo hi : option float) (m : mode) : bool
 Definition sweep (vals : list float) (len : nat) (lims : list (option float)) (modes : list mode) : bool :=
   forallb (fun x => forallb (fun lo => forallb (fun hi => forallb (fun m => model_ok_on x lo hi m) modes) lims) lims)
           (lists_upto vals len).
+
+(* ------------------------------------------------------------ option handling of the public entry points *)
+Definition v_hist_api (a : api) (x : list float) (lo hi : option float) (k : kw) (nb : option Z)
+           (obc obpy : option observed) (outc outpy : result arrays) : Z :=
+  match resolve a k nb with
+  | Some m => v_hist x lo hi m obc obpy outc outpy
+  | None =>
+      let r : result arrays := model_arrays (histogram_api EngC a x lo hi k nb) in
+      verdict (result_eqb arrays_eqb r outc && result_eqb arrays_eqb r outpy) (result_eqb arrays_eqb outc outpy)
+  end.
+
+(* inside the domain of C05_holds_finite: there the contracts are theorems, not monitored facts *)
+Definition proved_domain (x : list float) (lo hi : option float) (m : mode) : bool :=
+  forallb finite_f x && finite_opt lo && finite_opt hi &&
+  match histogram EngC x lo hi m with Ok o => params_ok (o_params o) | Err _ => false end.
+
+(* 0: contracts hold (monitored), outside the proved domain or rejected input;
+   2: contracts hold and the input is inside the proved domain; 1: a contract fails *)
+Definition monitor_code (a : api) (x : list float) (lo hi : option float) (k : kw) (nb : option Z) : Z :=
+  match resolve a k nb with
+  | Some m => if monitor x lo hi m then (if proved_domain x lo hi m then 2 else 0) else 1
+  | None => 0
+  end.
+
+Definition show_api (a : api) (x : list float) (lo hi : option float) (k : kw) (nb : option Z) :=
+  match histogram_api EngC a x lo hi k nb with
+  | Ok o => Some (o_params o, o_hist o, o_rev o)
+  | Err _ => None
+  end.
+
+(* constants regenerated from the source (harness/props/c05_translate.py) against Model.v's *)
+Definition consts_agree (g_default_binsize : float)
+           (g_nbin_plus g_rev_extra g_c_binold g_py_binold g_c_off g_py_off
+            g_c_oe_init g_py_oe_init g_c_oe_step g_py_oe_step : Z)
+           (g_lo g_hi g_stable g_over g_first : bool) : bool :=
+  fbits_eqb g_default_binsize default_binsize
+  && (g_nbin_plus =? nbin_plus) && (g_rev_extra =? rev_extra)
+  && (g_c_binold =? binold_init) && (g_py_binold =? binold_init)
+  && (g_c_off =? offset_init) && (g_py_off =? offset_init)
+  && (g_c_oe_init =? offset_end_init) && (g_py_oe_init =? offset_end_init)
+  && (g_c_oe_step =? offset_end_step) && (g_py_oe_step =? offset_end_step)
+  && Bool.eqb g_lo lo_inclusive && Bool.eqb g_hi hi_inclusive && Bool.eqb g_stable sort_stable
+  && Bool.eqb g_over hist_nbin_overrides && Bool.eqb g_first binner_binsize_first.
